@@ -138,6 +138,83 @@ def explore(res, rng, n):
                 hv = H[a][b2](list(pt))
                 if abs(hv - wanth) > 1e-9 * mag / dx ** 2:
                     fail(res, 'Hessian not exact on a polynomial of degree < order', case, {'entry': [a, b2], 'got': hv, 'want': wanth})
+    # ---- the evaluation point in single precision (a float32 scalar, a row of a float32 array): the abscissae x0 + k dx must still
+    # be formed in binary64 - with a decimal step the float32 sum x0 + k dx is off by 1e-4 dx and the quotient by as much
+    for i in range(max(4, n // 10)):
+        order = rng.choice([3, 5, 7])
+        nd = rng.choice([1, 2])
+        deg = rng.randrange(1, order)
+        c = [rng.randint(-9, 9) for _ in range(deg)] + [rng.choice([-3, 2, 5])]
+        x0 = rng.choice([1.0, -2.5, 0.375, 3.0])
+        dx = rng.choice([1e-3, 0.01, 0.1])
+        res.evaluations += 1
+        res.stat('float32_evaluation_point')
+        case = {'coeffs': c, 'x0': 'np.float32(%r)' % x0, 'dx': dx, 'n': nd, 'order': order}
+        try:
+            g64 = utils.derivative(lambda x: poly_eval(c, x), x0, dx=dx, n=nd, order=order)
+            g32 = utils.derivative(lambda x: poly_eval(c, x), np.float32(x0), dx=dx, n=nd, order=order)
+        except Exception as e:  # noqa
+            fail(res, 'derivative raised at a float32 point: ' + type(e).__name__, case, None)
+            continue
+        want = float(poly_eval(poly_deriv(c, nd), Fraction(x0)))
+        scale = max(1.0, sum(abs(ci) * (abs(x0) + order * dx) ** j for j, ci in enumerate(c))) / dx ** nd
+        if abs(float(g32) - want) > max(1e-8 * scale, 10 * abs(float(g64) - want)):
+            fail(res, 'derivative at a float32 point loses the accuracy it has at the same point in binary64', case, [float(g32), float(g64), want])
+        nv = 2
+        A = [[rng.randint(-5, 5) for _ in range(nv)] for _ in range(nv)]
+        f2 = lambda x: sum(A[i][j] * x[i] * x[j] for i in range(nv) for j in range(nv))
+        pt = [rng.choice([1.0, -0.5, 2.0, 3.0]) for _ in range(nv)]
+        gq = utils.gradient(f2, nv, n=1, dx=dx, order=3)
+        for a in range(nv):
+            want = sum((A[a][j] + A[j][a]) * pt[j] for j in range(nv))
+            v32 = float(gq[a](np.array(pt, dtype=np.float32)))
+            v64 = float(gq[a](np.array(pt, dtype=float)))
+            if abs(v32 - want) > max(1e-8 * (1 + abs(want)) / dx, 10 * abs(v64 - want)):
+                fail(res, 'gradient at a float32 point loses the accuracy it has at the same point in binary64', {'A': A, 'point': pt, 'dx': dx}, [v32, v64, want])
+    # ---- Gram-Schmidt: a column that is nearly (not exactly) a multiple of the alignment vector; the matrix is of full rank
+    # (condition number ~ 1/angle), so the clause applies; orthonormality is lost at most in proportion to the condition number
+    for ang in (1e-5, 1e-6, 1e-7, 3e-8):
+        for variant in range(4):
+            d = rng.choice([3, 4])
+            while True:
+                Mn = np.array([[float(rng.randint(-3, 3)) for _ in range(d)] for _ in range(d)])
+                if abs(np.linalg.det(Mn)) >= 1.0:
+                    break
+            jn = rng.randrange(1, d)
+            w = np.array([float(rng.randint(-3, 3)) for _ in range(d)])
+            if variant % 2 == 0:
+                # default alignment (first column); column jn nearly parallel to it
+                a = Mn[:, 0].copy()
+                w = w - (w @ a) / (a @ a) * a
+                if np.linalg.norm(w) < 0.5:
+                    continue
+                Mn[:, jn] = rng.choice([1.0, -2.0, 0.5]) * (a + ang * np.linalg.norm(a) * w / np.linalg.norm(w))
+                al = None
+            else:
+                # explicit alignment vector nearly parallel to column jn
+                a = Mn[:, jn].copy()
+                w = w - (w @ a) / (a @ a) * a
+                if np.linalg.norm(w) < 0.5:
+                    continue
+                al = rng.choice([1.0, -2.0, 0.5]) * (a + ang * np.linalg.norm(a) * w / np.linalg.norm(w))
+            T = np.column_stack([Mn[:, 0] if al is None else al] + [Mn[:, j] for j in range(1, d)])
+            sv = np.linalg.svd(T, compute_uv=False)
+            if sv[-1] / sv[0] < ang / 50:
+                continue
+            res.evaluations += 1
+            res.stat('gram_schmidt_column_within_%g_rad_of_alignment' % ang)
+            case = {'A': Mn.tolist(), 'alignVec': None if al is None else al.tolist(), 'angle': ang}
+            try:
+                B, J = utils.gramSchmidOrth(Mn.tolist(), None if al is None else al.tolist())
+            except Exception as e:  # noqa
+                fail(res, 'Gram-Schmidt raised on a full-rank matrix with a column close to the alignment vector: ' + type(e).__name__, case, None)
+                continue
+            B, J = np.array(B, dtype=float), np.array(J, dtype=float)
+            a0 = Mn[:, 0] if al is None else al
+            tol = max(1e-9, 1e-15 / ang * 100)
+            if not (np.all(np.isfinite(B)) and np.allclose(B.T @ B, np.eye(d), atol=tol) and np.allclose(B[:, 0], a0 / np.linalg.norm(a0), atol=1e-9)):
+                fail(res, 'Gram-Schmidt columns not orthonormal / first column wrong: a column within %g rad of the alignment vector (full rank)' % ang, case,
+                     np.nan_to_num(B, nan=-999.0).tolist())
     # ---- Gram-Schmidt
     for i in range(max(5, n // 5)):
         d = rng.choice([2, 3, 4])
